@@ -77,7 +77,8 @@ def fam_dist(ctx, ka, kb, template, fr_name, perm, form):
 def families(tier, seed):
     import random
     rng = random.Random(seed)
-    frames = ['axis', 'oblique'] if tier == 'quick' else ['axis', 'planar', 'oblique', 'pyth3', 'pyth7', 'shear', B.random_frame_name(rng), B.random_frame_name(rng)]
+    # pyth7: unit vectors with non-dyadic components, so float dot products of exactly parallel / orthogonal directions do not cancel exactly
+    frames = ['axis', 'oblique', 'pyth7'] if tier == 'quick' else ['axis', 'planar', 'oblique', 'pyth3', 'pyth7', 'shear', B.random_frame_name(rng), B.random_frame_name(rng)]
     fams = []
     for fi, fr_name in enumerate(frames):
         perms = [None] if tier == 'quick' else [None, rng.randrange(48)]
